@@ -33,20 +33,59 @@ theorem readFrame_response (m : WireMsg) (r : Resp) (e q y : Bytes) (more : List
     rw [hpre]
     exact readFrame_response m r e q y more atEnd hop hm hid he hsz hq ps (buf ++ p) (by rw [← hcut]; simp)
 
+theorem decodeInner_nil : decodeInner [] = .needMore := by rfl
+
+/-- the same through the loop of the turn: nothing skipped, the response ends it -/
+theorem await_response (m : WireMsg) (r : Resp) (e q y : Bytes) (ps more : List Bytes) (atEnd : End)
+    (sk : List (Int × Tlv)) (skb : Bytes)
+    (hop : m.op = respOp r) (hm : m.WF) (hid : m.id = 1) (he : Enc m.tlv e)
+    (hsz : (e ++ y).length < 18446744073709551616) (hq : q ≠ []) (hcut : ps.flatten ++ q = e) :
+    await atEnd [] (ps ++ (q ++ y) :: more) sk skb = .response (respOp r) sk skb e y more := by
+  apply await_hit (ctl := ctrlsMeaning m.ctrls)
+  unfold nextFrame
+  rw [decodeInner_nil]
+  exact readFrame_response m r e q y more atEnd hop hm hid he hsz hq ps [] (by simpa using hcut)
+
+/-- a well-formed message for ANOTHER ID in front of the response (same segment): dropped, the
+response behind it still ends the turn -/
+theorem await_foreign_then_response (m0 m : WireMsg) (r : Resp) (e0 e y : Bytes) (more : List Bytes) (atEnd : End)
+    (hm0 : m0.WF) (hid0 : m0.id ≠ 1) (he0 : Enc m0.tlv e0)
+    (hop : m.op = respOp r) (hm : m.WF) (hid : m.id = 1) (he : Enc m.tlv e)
+    (hsz : (e0 ++ (e ++ y)).length < 18446744073709551616) :
+    await atEnd [] ((e0 ++ (e ++ y)) :: more) [] [] = .response (respOp r) [((m0.id : Int), m0.op)] e0 e y more := by
+  have hd0 := decodeInner_msg m0 e0 (e ++ y) hm0 he0 hsz
+  have hn0 : nextFrame atEnd [] ((e0 ++ (e ++ y)) :: more) =
+      .frame (m0.id : Int) m0.op (ctrlsMeaning m0.ctrls) e0 (e ++ y) more := by
+    unfold nextFrame
+    rw [decodeInner_nil]
+    unfold readFrame
+    simp only [List.nil_append]
+    rw [hd0]
+    simp [WireMsg.frame]
+  rw [await_skip atEnd [] _ [] [] hn0 (by exact_mod_cast hid0)]
+  have hsz' : (e ++ y).length < 18446744073709551616 := by simp at hsz ⊢; omega
+  have hd := decodeInner_msg m e y hm he hsz'
+  simp only [WireMsg.frame, hop, hid] at hd
+  have hn : nextFrame atEnd (e ++ y) more = .frame 1 (respOp r) (ctrlsMeaning m.ctrls) e y more := by
+    unfold nextFrame
+    rw [hd]
+    simp
+  rw [await_hit atEnd (e ++ y) more _ _ hn]
+  simp
+
 section Wire
 variable (lib : TlsLib) (c : Cfg) (s : Server)
 variable (m : WireMsg) (r : Resp) (e q y : Bytes) (ps more : List Bytes)
 
-theorem answer_response (hs : s.readFirst = false) (hc : s.chunks = ps ++ (q ++ y) :: more)
+theorem answer_response (hs : s.early = 0) (hc : s.chunks = ps ++ (q ++ y) :: more)
     (hcut : ps.flatten ++ q = e) (hq : q ≠ [])
     (hop : m.op = respOp r) (hm : m.WF) (hid : m.id = 1) (he : Enc m.tlv e)
     (hsz : (e ++ y).length < 18446744073709551616) :
-    answer s = some (.frame 1 (respOp r) (ctrlsMeaning m.ctrls) e y more) := by
-  rw [answer_not_readFirst s hs, hc,
-    readFrame_response m r e q y more s.atEnd hop hm hid he hsz hq ps [] (by simpa using hcut)]
+    answer s = some (.response (respOp r) [] [] e y more) := by
+  rw [answer_not_early s hs, hc, await_response m r e q y ps more s.atEnd [] [] hop hm hid he hsz hq hcut]
 
 /-- refusal with ANY non-zero code: `Err(LdapResult { rc })`, nothing but the request was written, no TLS -/
-theorem refused_wire (hmode : c.mode = .startTls) (hs : s.readFirst = false)
+theorem refused_wire (hmode : c.mode = .startTls) (hs : s.early = 0)
     (hc : s.chunks = ps ++ (q ++ y) :: more) (hcut : ps.flatten ++ q = e) (hq : q ≠ [])
     (hop : m.op = respOp r) (hm : m.WF) (hid : m.id = 1) (hr : WFResp r) (he : Enc m.tlv e)
     (hsz : (e ++ y).length < 18446744073709551616) (hrc : r.rc ≠ 0) :
@@ -55,16 +94,16 @@ theorem refused_wire (hmode : c.mode = .startTls) (hs : s.readFirst = false)
   have ha := answer_response s m r e q y ps more hs hc hcut hq hop hm hid he hsz
   have hx := establish_answer lib c s hmode _ ha
   have hres := resultExt_respOp r hr
-  have ho := ((hx.2.2.2 _ _ _ _ _ _ rfl).2.2 rfl _ hres).1 hrc
+  have ho := ((hx.2.2.2 _ _ _ _ _ _ rfl).2 _ hres).1 hrc
   refine ⟨ho, hx.1, ?_⟩
-  have hi := (establish_invariants lib c s).2.2.1
+  have hi := (establish_invariants lib c s).2.1
   cases hh : (establish lib c s).hasTls with
   | false => rfl
   | true => rw [hi.mp hh] at ho; cases ho
 
 /-- success: the response frame is the only thing decoded in cleartext; the bytes behind it in the
 same segment are in the dropped buffer; later segments go to the TLS library; its verdict decides -/
-theorem success_wire (hmode : c.mode = .startTls) (hs : s.readFirst = false)
+theorem success_wire (hmode : c.mode = .startTls) (hs : s.early = 0)
     (hc : s.chunks = ps ++ (q ++ y) :: more) (hcut : ps.flatten ++ q = e) (hq : q ≠ [])
     (hop : m.op = respOp r) (hm : m.WF) (hid : m.id = 1) (hr : WFResp r) (he : Enc m.tlv e)
     (hsz : (e ++ y).length < 18446744073709551616) (hrc : r.rc = 0) :
@@ -74,14 +113,38 @@ theorem success_wire (hmode : c.mode = .startTls) (hs : s.readFirst = false)
     R.outcome = (match lib more.flatten s.peer c.verifyOff with
                  | .ok => .okSecure | .error => .err .nativeTls | .pending => stall c) := by
   intro R
-  have hf := firstEvent_not_readFirst s hs
-  have hrf := readFrame_response m r e q y more s.atEnd hop hm hid he hsz hq ps [] (by simpa using hcut)
+  have hf := firstEvent_not_early s hs
+  have haw := await_response m r e q y ps more s.atEnd [] [] hop hm hid he hsz hq hcut
   have hres := resultExt_respOp r hr
-  have e1 : R = afterRequest lib c s [] s.chunks := establish_startTls_sent lib c s hmode hf
+  have e1 : R = afterRequest lib c s [] s.chunks [] [] := establish_startTls_sent lib c s hmode hf
   rw [hc] at e1
-  rw [e1, afterRequest_success lib c s [] _ hrf hres hrc]
-  have f := tlsPhase_fields lib c s (okBase (respOp r) e y) more.flatten
+  rw [e1, afterRequest_success lib c s [] _ [] [] haw hres hrc]
+  have f := tlsPhase_fields lib c s (okBase (respOp r) [] [] e y) more.flatten
   exact ⟨f.1, f.2.1, f.2.2.1, f.2.2.2.1, f.2.2.2.2.2, f.2.2.2.2.1, tlsPhase_outcome _ _ _ _ _⟩
+
+/-- a well-formed message `m0` for another ID sent in front of a success response, in one segment,
+with `y` behind: `m0` is decoded and delivered to nobody, the response completes the exchange -/
+theorem foreign_then_success_wire (m0 : WireMsg) (e0 : Bytes) (hmode : c.mode = .startTls) (hs : s.early = 0)
+    (hc : s.chunks = (e0 ++ (e ++ y)) :: more)
+    (hm0 : m0.WF) (hid0 : m0.id ≠ 1) (he0 : Enc m0.tlv e0)
+    (hop : m.op = respOp r) (hm : m.WF) (hid : m.id = 1) (hr : WFResp r) (he : Enc m.tlv e)
+    (hsz : (e0 ++ (e ++ y)).length < 18446744073709551616) (hrc : r.rc = 0) :
+    let R := establish lib c s
+    R.cleartextWrites = [startTlsReq] ∧ R.decoded = [((m0.id : Int), m0.op), (1, respOp r)] ∧
+    R.consumed = e0 ++ e ∧ R.response = e ∧ R.discarded = y ∧ R.tlsStale = more.flatten ∧ R.sessionBuf = [] ∧
+    R.outcome = (match lib more.flatten s.peer c.verifyOff with
+                 | .ok => .okSecure | .error => .err .nativeTls | .pending => stall c) := by
+  intro R
+  have hf := firstEvent_not_early s hs
+  have haw := await_foreign_then_response m0 m r e0 e y more s.atEnd hm0 hid0 he0 hop hm hid he hsz
+  have hres := resultExt_respOp r hr
+  have e1 : R = afterRequest lib c s [] s.chunks [] [] := establish_startTls_sent lib c s hmode hf
+  rw [hc] at e1
+  rw [e1, afterRequest_success lib c s [] _ [] [] haw hres hrc]
+  have f := tlsPhase_fields lib c s (okBase (respOp r) [((m0.id : Int), m0.op)] e0 e y) more.flatten
+  have hresp : (tlsPhase lib c s (okBase (respOp r) [((m0.id : Int), m0.op)] e0 e y) more.flatten).response = e := by
+    simp only [tlsPhase]; split <;> simp [okBase]
+  exact ⟨f.1, f.2.1, f.2.2.1, hresp, f.2.2.2.1, f.2.2.2.2.2, f.2.2.2.2.1, tlsPhase_outcome _ _ _ _ _⟩
 
 end Wire
 
